@@ -1992,6 +1992,11 @@ def ep_escape_positions(ctx, n):
         if not all(mv.endswith(epsq) and mv[1] == '4' and mv[0] != epsq[0] for mv in info[0]): continue
         ri = legal_info(ctx, root)
         if not ri or ri[3] != 'no': continue
+        # the push must be a legal move of the root (the pawn may be pinned, or the mover in check), else the child is not
+        # a legal position and the property says nothing about it
+        if 'abcdefgh'[f] + '2' + 'abcdefgh'[f] + '4' not in ri[0]: continue
+        wc = ctx.model.ask('oracle wf ' + child + ' ; ')
+        if not wc or not wc[0].startswith('wf 1 nk 1'): continue
         if rng.random() < 0.5:
             root, child = color_mirror_fen(root), color_mirror_fen(child)
         out[root] = 'ep-escape-root'
